@@ -18,3 +18,25 @@ pub fn leaky_filter(s: String) -> Value {
     }
     Value::from_safe_string(rv)
 }
+
+/// C16.T11 control: a map whose lookup binary-searches its entries, with one constructor that sorts and one that does not.
+pub struct KeyMap(pub Vec<(&'static str, u32)>);
+
+impl KeyMap {
+    pub fn sorted(mut entries: Vec<(&'static str, u32)>) -> KeyMap {
+        entries.sort_by_key(|entry| entry.0);
+        KeyMap(entries)
+    }
+
+    /// the violating constructor: entries are stored as they come
+    pub fn raw(entries: Vec<(&'static str, u32)>) -> KeyMap {
+        KeyMap(entries)
+    }
+
+    pub fn get(&self, key: &str) -> Option<u32> {
+        self.0
+            .binary_search_by_key(&key, |entry| entry.0)
+            .ok()
+            .map(|idx| self.0[idx].1)
+    }
+}
